@@ -286,4 +286,6 @@ def check_nested_thresholds(thresholds: List[List[Real]], num_elements: int) -> 
         raise ThresholdError(f"Type of all elements must be list, but got {thresholds}")
     elif any([len(t) == 0 or len(t) != num_elements for t in thresholds]):
         raise ThresholdError(f"Expected the number of each element is {num_elements}, but got {thresholds}")
+    elif any([not isinstance(v, Real) for t in thresholds for v in t]):
+        raise ThresholdError(f"Type of all elements must be Real number, but got {thresholds}")
     return thresholds
